@@ -361,6 +361,50 @@ func runC17(r *Run) {
 		}
 		r.check(ok, "bypass:straight-to-Next", r.fpos(c.h), "Next(c)==true and the empty key go straight to c.Next() with no storage or lock call", "a bypassed request touches the storage/lock or does not reach the handler")
 	})
+
+	r.rule("R7", "the default skip predicate bypasses safe methods only (E1): ConfigDefault.Next answers true only behind fiber.IsMethodSafe", func() {
+		ini := r.P.Func(idemPkg, "init")
+		r.need(ini != nil, "package initialiser")
+		var next *ssa.Function
+		var visit func(f *ssa.Function)
+		visit = func(f *ssa.Function) {
+			for _, fr := range fieldRefsOne(f) {
+				if fr.Write && fr.Name == "idempotency.Config.Next" {
+					switch v := fr.Val.(type) {
+					case *ssa.Function:
+						next = v
+					case *ssa.MakeClosure:
+						next, _ = v.Fn.(*ssa.Function)
+					}
+				}
+			}
+		}
+		visit(ini)
+		for _, a := range anonFuncsDeep(ini) {
+			visit(a)
+		}
+		r.need(next != nil, "ConfigDefault.Next is a function literal")
+		cut := map[edge]bool{}
+		var preds []ssa.Value
+		for _, c := range callsMatching(next, false, nameIs(fiberMod+".IsMethodSafe")) {
+			preds = append(preds, c.Value())
+			for _, br := range ifsOnValue(next, c.Value()) {
+				if sl, ok := br.truthSlot(true); ok {
+					cut[edge{br.If.Block(), sl}] = true
+				}
+			}
+		}
+		ok := len(preds) > 0 && trueOnlyBehind(next, cut, func(v ssa.Value) bool {
+			for _, p := range preds {
+				if v == p {
+					return true
+				}
+			}
+			return false
+		})
+		r.check(ok, "ConfigDefault.Next:safe-methods-only", r.fpos(next), "the default Next answers true only when fiber.IsMethodSafe(method) is true",
+			"the default skip predicate can bypass the middleware for a method that is not safe (e.g. PUT or DELETE, which are idempotent by definition but not safe): duplicates of such requests all run the handler")
+	})
 }
 
 func tokenOf(st *ssa.Store) string {
